@@ -49,6 +49,9 @@ pub fn c01(h: &History, _s: &Synth) -> Vec<Finding> {
 			out.push(f("C01/duplicate", format!("event #{id} ({:?}, {:?}) was delivered in {n} batches", e.prio, e.kind), false));
 		}
 	}
+	if h.producers_stuck {
+		out.push(f("C01/stalled", "producers stayed blocked on a full event queue for 12 s: the action worker stopped taking events".into(), true));
+	}
 	let main_alive_to_quit = h.quit_sent_at.is_some();
 	for e in &h.sent {
 		let expected = e.ok && (e.prio == Priority::Urgent || e.kind == Kind::Empty || e.verdict == Verdict::Pass);
@@ -250,6 +253,20 @@ pub fn c15(h: &History, s: &Synth) -> Vec<Finding> {
 			(None, _) => out.push(f("C15/main-never-ended-after-critical", "the main task did not end after a critical error".into(), true)),
 			_ => {}
 		}
+	}
+	if h.producers_stuck {
+		out.push(f(
+			"C15/stalled-after-error",
+			"producers stayed blocked on a full event queue for 12 s: event processing stopped after a runtime error".into(),
+			true,
+		));
+	}
+	if h.replace_started.is_some() && h.replace_done.is_none() {
+		out.push(f(
+			"C15/handler-replacement/never-returns",
+			"the error handler called config.on_error() from inside its own invocation and never came back (deadlock)".into(),
+			true,
+		));
 	}
 	if let ErrBehaviour::ReplaceSelf(k) = s.err {
 		for (i, e) in h.errors.iter().enumerate() {
